@@ -13,6 +13,9 @@ CONFIGS_QUICK = ["all"]
 
 
 def run(ctx):
+    from . import guardvocab
+    guardvocab.G2(ctx, scopes=('rt::path::', 'rt::execution::Execution::step'))
+    guardvocab.G3(ctx, scopes=('rt::path::', 'rt::execution::Execution::step'))
     modelrules.Z1(ctx)
     modelrules.Z2(ctx)
     pathrules.Z3(ctx)
